@@ -697,7 +697,7 @@ func TestC28(t *testing.T) {
 	// re-acquiring owner with one contender. Thorough: both dimensions together, 4 processes, and all short histories.
 	universes := []universe{{3, 1, 0}, {2, 2, 0}}
 	if vr.Thorough() {
-		universes = []universe{{3, 2, 0}, {4, 1, 0}, {3, 1, 4}, {2, 2, 4}}
+		universes = []universe{{3, 1, 0}, {2, 2, 0}, {3, 2, 0}, {4, 1, 0}, {3, 1, 4}, {2, 2, 4}}
 	}
 	r.Rule("reference model (alive set, un-released Lock objects per process <= 2, POSIX owner) explored by BFS to closure over ops " +
 		"{acquire,release,releaseold,kill,exit,respawn}_i plus race_all (all idle live processes attempt at the same instant; exactly one must win iff the lock is free); EVERY model transition (state x enabled op) is executed on fresh real processes " +
